@@ -58,3 +58,40 @@ func vh_C13_ready() {
 		verifAssert("C13.ready.other-paths-pass-through", next == 1 && st.pings == 0 && rw.status == 0)
 	}
 }
+
+// vFlipStore's reachability is set by the harness between probes
+type vFlipStore struct {
+	vPingStore
+	down bool
+}
+
+func (s *vFlipStore) VerifyConnection(context.Context) error {
+	s.pings++
+	if s.down {
+		return vErrStore
+	}
+	return nil
+}
+
+// a sequence of readiness probes through the middleware as installed (NewReadynessCheck): every
+// probe's answer is the store's state at that probe -- whatever earlier probes found and
+// however closely the probes follow each other
+// verif: unwind=6 strlen=8
+func vh_C13_ready_sequence() {
+	st := &vFlipStore{}
+	m := persistence.NewManager(st, nil)
+	h := NewReadynessCheck("/ready", m)(http.HandlerFunc(func(http.ResponseWriter, *http.Request) {}))
+	n := 2 + ndChoice("probes", 2)
+	for i := 0; i < n; i++ {
+		st.down = ndBool("store-down-at-this-probe")
+		rw := &vRW{}
+		h.ServeHTTP(rw, &http.Request{Method: "GET", URL: &url.URL{Path: "/ready"}, Header: http.Header{}})
+		if st.down {
+			verifAssert("C13.ready.sequence.not-ready-while-store-down", rw.status == 500)
+			verifReach("down-probe")
+		} else {
+			verifAssert("C13.ready.sequence.ready-when-store-answers", rw.status == 200)
+		}
+	}
+	verifReach("end")
+}
